@@ -385,14 +385,15 @@ namespace micm
       throw std::system_error(make_error_code(MicmSolverBuilderErrc::MissingReactions), "Missing reactions.");
     }
     using SolverPolicy = typename SolverParametersPolicy::template SolverType<RatesPolicy, LinearSolverPolicy>;
-    auto species_map = this->GetSpeciesMap();
-    auto labels = this->GetCustomParameterLabels();
+    // an empty species list is rejected before anything is sized by it (the state reordering loops over order - 1)
     std::size_t number_of_species = this->system_.StateSize();
     if (number_of_species == 0)
     {
       throw std::system_error(
           make_error_code(MicmSolverBuilderErrc::MissingChemicalSpecies), "Provided chemical system contains no species.");
     }
+    auto species_map = this->GetSpeciesMap();
+    auto labels = this->GetCustomParameterLabels();
 
     this->UnusedSpeciesCheck();
 
